@@ -160,14 +160,14 @@ func genOutScript(r *vh.RNG, w *wallet, shape string, own int) gScript {
 func genSigScript(r *vh.RNG, w *wallet, own int) gScript {
 	switch r.Intn(8) {
 	case 0, 1, 2: // <sig> <pubkey>
-		sig := r.Bytes(71 + r.Intn(2))
+		sig := r.Bytes(vh.Pick(r, []int{8, 9, 8, 71, 72}))
 		k := w.pick(r, w.pubs, own)
 		return gScript{cat(push(sig), push(k)), [][]byte{sig, k}, false, false, "sig+key"}
 	case 3: // <sig>
-		sig := r.Bytes(71)
+		sig := r.Bytes(vh.Pick(r, []int{8, 71}))
 		return gScript{push(sig), [][]byte{sig}, false, false, "sig"}
 	case 4: // OP_0 <sig> <redeem script containing a wallet key>
-		sig := r.Bytes(70)
+		sig := r.Bytes(10)
 		k := w.pick(r, w.pubs, own)
 		redeem := cat([]byte{0x51}, push(k), []byte{0x51, 0xae})
 		return gScript{cat([]byte{0x00}, push(sig), push(redeem)), [][]byte{{}, sig, redeem}, false, false, "p2sh-spend"}
@@ -450,17 +450,25 @@ func bitsN(b []byte) string { // the bit array as a number: bit j of byte k = bi
 	for i := range b {
 		le[len(b)-1-i] = b[i]
 	}
-	return new(big.Int).SetBytes(le).String()
+	return "0x0" + new(big.Int).SetBytes(le).Text(16)
 }
 
-// maskOf asks the real code which bits an item selects
+// maskOf asks the real code which bits an item selects (list of bit positions)
 func maskOf(p fParams, item []byte) string {
 	if !p.Loaded {
-		return "0"
+		return "[]"
 	}
 	f := bloom.LoadFilter(wire.NewMsgFilterLoad(make([]byte, p.Size), p.K, p.Tweak, 0))
 	f.Add(item)
-	return bitsN(filterBytes(f))
+	var pos []string
+	for k, x := range filterBytes(f) {
+		for j := 0; j < 8; j++ {
+			if x&(1<<uint(j)) != 0 {
+				pos = append(pos, fmt.Sprint(8*k+j))
+			}
+		}
+	}
+	return "[" + strings.Join(pos, ";") + "]"
 }
 
 func genParams(r *vh.RNG, flags uint8) fParams {
@@ -640,10 +648,13 @@ func refMatchUpdate(f *bloom.Filter, flags uint8, m *wire.MsgTx) bool {
 }
 
 // ---------------------------------------------------------------- Coq terms
+// coqNum writes a byte string as the number 0x01||bytes (Run_C10.v "Encoding")
+func coqNum(b []byte) string { return "0x01" + vh.Hex(b) }
+
 func coqItems(p [][]byte) string {
 	it := make([]string, len(p))
 	for i, d := range p {
-		it[i] = vh.CoqBytes(d)
+		it[i] = coqNum(d)
 	}
 	return vh.CoqList(it)
 }
@@ -712,9 +723,9 @@ func coqTx(m *wire.MsgTx, items map[string][]byte) string {
 		}
 		ob := opBytes(&in.PreviousOutPoint.Hash, in.PreviousOutPoint.Index)
 		items[string(ob)] = ob
-		ins = append(ins, fmt.Sprintf("(%s, %d, %s)", vh.CoqBytes(in.PreviousOutPoint.Hash[:]), in.PreviousOutPoint.Index, ps))
+		ins = append(ins, fmt.Sprintf("(%s, %d, %s)", coqNum(in.PreviousOutPoint.Hash[:]), in.PreviousOutPoint.Index, ps))
 	}
-	return fmt.Sprintf("(T %s %s %s)", vh.CoqBytes(h[:]), vh.CoqList(outs), vh.CoqList(ins))
+	return fmt.Sprintf("(T %s %s %s)", coqNum(h[:]), vh.CoqList(outs), vh.CoqList(ins))
 }
 
 func coqTable(p fParams, items map[string][]byte) string {
@@ -725,7 +736,7 @@ func coqTable(p fParams, items map[string][]byte) string {
 	sort.Strings(keys)
 	ent := make([]string, len(keys))
 	for i, k := range keys {
-		ent[i] = fmt.Sprintf("(%s, %s)", vh.CoqBytes(items[k]), maskOf(p, items[k]))
+		ent[i] = fmt.Sprintf("(%s, %s)", coqNum(items[k]), maskOf(p, items[k]))
 	}
 	return vh.CoqList(ent)
 }
